@@ -293,6 +293,17 @@ def reduce (sqrtF : Rat → Rat) (useMean : Bool) (k qlo qhi : Rat) (members : L
   | [] => []
   | m :: _ => (List.range m.length).map fun t => reduceRow sqrtF useMean k qlo qhi (rowAt members t)
 
+/-- `MultiSim.reduce` for one result key as the code is: `raw[rkey]` is allocated with `len(sim)` rows (the
+    sim's number of time points `npts`) and the statistic is assigned to `res[:]`; the series of a module with
+    its own time step has another length and the assignment raises `ValueError` (known finding
+    C18-reduce-mixed-timesteps). `.spec`: every series is reduced over its own length. -/
+def reduceKey (v : Variant) (npts : Nat) (sqrtF : Rat → Rat) (useMean : Bool) (k qlo qhi : Rat)
+    (members : List (List Rat)) : Except Err (List Band) :=
+  match v, members with
+  | .asis, m :: _ =>
+      if m.length = npts then .ok (reduce sqrtF useMean k qlo qhi members) else .error .valueErr
+  | _, _ => .ok (reduce sqrtF useMean k qlo qhi members)
+
 /-- `MultiSim.summarize(method=…)` for one key, from the per-member summary numbers. -/
 inductive SumMethod where
   | mean | median | all
